@@ -50,7 +50,12 @@ type Fail struct {
 
 // Fails collects the failed assertions of one case, so that a known finding does not hide
 // other failures of the same case.
-type Fails struct{ List []Fail }
+type Fails struct {
+	List []Fail
+	// Stuck: library calls of this case never returned (goroutines are still blocked): the process cannot go on to
+	// other cases; the runner writes the replay file and the statistics and exits.
+	Stuck bool
+}
 
 func (f *Fails) Add(kind, format string, args ...any) {
 	if len(f.List) < 20 {
@@ -375,6 +380,20 @@ func runCheck(p *prop, s *stats, c any) (unexplained []Fail) {
 	return again
 }
 
+// stuckPending is set when a check found library calls that never return (see Fails.Stuck).
+var stuckPending bool
+
+// stopIfStuck ends the process after a "calls never returned" failure was recorded: replay file and statistics are on
+// disk, the exit code is that of a failed test.
+func stopIfStuck(s *stats) {
+	if !stuckPending {
+		return
+	}
+	s.write()
+	fmt.Println("FAIL: library calls of the last case never returned; the process stops here (replay file and statistics written)")
+	os.Exit(1)
+}
+
 var malformedEvals int
 
 // runAfterMalformed: a refused call must leave nothing behind. Every 8th evaluation, after the case passed, every
@@ -481,6 +500,9 @@ func runCheckOnce(p *prop, s *stats, c any) (unexplained []Fail) {
 		}()
 		p.check(c, &fl)
 	}()
+	if fl.Stuck {
+		stuckPending = true
+	}
 	for _, f := range fl.List {
 		if id := matchKnown(p.id, c, f); id != "" {
 			s.mu.Lock()
